@@ -1,12 +1,40 @@
 """C02 - Java translations of valid programs compile with javac (spec: HJavac contract; javac is the observed judge)."""
 import itertools
 import json
+import re
 import os
 import random
 import time
 from core import *
 
 PID = "C02"
+
+
+def sibling_bound(header, tv):
+    """does the generic header declare `tv extends P` where P is another type parameter of the same header?"""
+    i = header.find("<")
+    depth, cur, items = 0, "", []
+    for ch in header[i:]:
+        if ch == "<":
+            depth += 1
+            if depth == 1:
+                continue
+        elif ch == ">":
+            depth -= 1
+            if depth == 0:
+                items.append(cur)
+                break
+        if ch == "," and depth == 1:
+            items.append(cur)
+            cur = ""
+        else:
+            cur += ch
+    names = {it.split()[0] for it in items if it.split()}
+    for it in items:
+        w = it.split()
+        if len(w) == 3 and w[0] == tv and w[1] == "extends" and w[2] in names:
+            return True
+    return False
 NF = 6      # files per pool: 3 generated programs and their erasures
 
 
@@ -75,6 +103,11 @@ def run(tier, seed, selftest=False, replay=None):
                 # produced a captured type variable (CAP#n) that a later argument does not fit
                 if cl == "PassOracle" and f_ % 2 == 0 and "CAP#" in e["out"] and "<>" in e["out"]:
                     cl = "PassOracle/ErasedDiamondCapture"
+                # known-finding shape, read off javac's diagnostic and the class headers: a type argument outside the bound of a type
+                # variable that is bounded by a sibling type parameter (class Stallone<L, X extends L>) - the C09 / C01 DependentParam family
+                m = re.search(r"not within bounds of type-variable (\w+)", e["out"])
+                if cl == "PassOracle" and m and any(sibling_bound(h, m.group(1)) for h in e.get("headers", [])):
+                    cl = "PassOracle/DependentParamBound"
                 verdict.add(cl, {"id": r["id"], "event": e, "file": f_, "schedule": [x["batch"] for x in r["events"] if len(x["batch"]) > 1]},
                             "%s for file %s (%s program) in batch %s of %s; javac: %s" % (
                                 cl, f_, "generated" if f_ % 2 else "erased", e["batch"], r["id"], e["out"][:300].replace("\n", " | ")))
